@@ -126,7 +126,9 @@ func (t *Term) dcs(it vtref.Item) {
 		case "Smulx":
 			ok, val = t.Caps.Smulx, "\x1b[4:%p1%dm"
 		}
-		if ok {
+		if ok && t.Caps.TcapNoValue {
+			t.send("xtgettcap", "\x1bP1+r"+data+"\x1b\\")
+		} else if ok {
 			t.send("xtgettcap", "\x1bP1+r"+data+"="+strings.ToUpper(hex.EncodeToString([]byte(val)))+"\x1b\\")
 		} else if t.Caps.RGB || t.Caps.Smulx || t.Caps.DECRPMAbsent != 0 {
 			// a terminal that implements XTGETTCAP answers unknown names with 0+r
